@@ -103,6 +103,8 @@ class H2Protocol:
             config=h2.config.H2Configuration(client_side=False, header_encoding=None)
         )
         self.connection.DEFAULT_MAX_INBOUND_FRAME_SIZE = config.h2_max_inbound_frame_size
+        # Replacing local_settings below does not reach the header decoder
+        self.connection.decoder.max_header_list_size = config.h2_max_header_list_size
         self.connection.local_settings = h2.settings.Settings(
             client=False,
             initial_values={
